@@ -364,7 +364,7 @@ def check_exchange(version, method, script, pipeline=False):
     for n, v in r["headers"]:
         got.setdefault(n, []).append(v)
     te = got.pop(b"transfer-encoding", None)
-    conn_h = got.pop(b"connection", None)
+    got.pop(b"connection", None)
     for so in SERVER_OWNED:
         got.pop(so, None)
     cl = got.get(b"content-length")
